@@ -10,6 +10,10 @@
      events are validated against the specification by TLC (Trace_C18) and the
      tokens the derive produced are compared with the library called with the
      same options.
+(iii) the repository's OWN derive sites (its integration tests, ~40 derives over its fixture
+     schemas): compiled with the hooked derive, attributes read from the source by an
+     independent lexer (tools/suite.py), validated by the same Trace_C18 and compared with
+     the library called with DeriveAttr!RefOptions of what is written.
 """
 import json, os, re, shutil, sys
 import vlib
@@ -159,6 +163,46 @@ def parse_dump(d):
     return out
 
 
+def obs_of(ev):
+    """the options recorded in an OptionsBuilt event, in the vocabulary of Trace_C18"""
+    d = parse_dump(ev["dump"])
+
+    def opt(s):   # Some("x") -> x ; None -> None
+        m = re.match(r'^Some\("(.*)"\)$', s)
+        return json.loads('"' + m.group(1) + '"') if m else None
+    return {
+        "query_path": ev["query_path"], "schema_path": ev["schema_path"], "manifest_dir": ev["manifest_dir"],
+        "response_derives": opt(d["response_derives"]) or "", "response_derives_set": d["response_derives"] != "None",
+        "variables_derives": opt(d["variables_derives"]) or "", "variables_derives_set": d["variables_derives"] != "None",
+        "custom_scalars_module": (opt(d["custom_scalars_module"]) or "").replace(" ", ""),
+        "custom_scalars_module_set": d["custom_scalars_module"] != "None",
+        "deprecated": {"None": "warn", "Some(Warn)": "warn", "Some(Allow)": "allow", "Some(Deny)": "deny"}.get(d["deprecation_strategy"], d["deprecation_strategy"]),
+        "normalization": d["normalization"].lower(),
+        "fragments_other_variant": d["fragments_other_variant"] == "true",
+        "skip_serializing_none": d["skip_serializing_none"] == "true",
+        "extern_enums": json.loads(d["extern_enums"]),
+        "operation_name": opt(d["operation_name"]) or "", "struct_ident": opt(d["struct_ident"]) or "",
+        "mode": d["mode"], "serde_path": d["serde_path"].replace(" ", "").strip('"'),
+        "module_visibility": (opt(d["module_visibility"]) or "").replace(" ", ""),
+        "query_file": opt(d["query_file"]) or "",
+    }
+
+
+def lib_options(o, ident, crate, vis="pub"):
+    """library options equivalent to the reference options `o` of an attribute on `struct ident`"""
+    lib = {"mode": "derive", "operation_name": ident, "struct_ident": ident,
+           "normalization": o["normalization"], "deprecation": o["deprecated"],
+           "fragments_other_variant": o["fragments_other_variant"], "skip_serializing_none": o["skip_serializing_none"],
+           "module_visibility": vis, "serde_path": "graphql_client::_private::serde",
+           "query_file": "%s/%s" % (crate, o["query_path"])}
+    for k in ("response_derives", "variables_derives", "custom_scalars_module"):
+        if o[k]["found"]:
+            lib[k] = o[k]["value"]
+    if o["extern_enums"]:
+        lib["extern_enums"] = o["extern_enums"]
+    return lib
+
+
 def part_ii(ck, cases, tier):
     nsel = 24 if tier == "quick" else 120
     step = max(1, len(cases) // nsel)
@@ -215,43 +259,11 @@ def part_ii(ck, cases, tier):
             ck.violation("derive-optionserr-%d" % n, {"part": "ii", "case": c, "event": ev},
                          "C18(ii): options could not be built for Op%d: %s" % (n, ev["msg"]), case_key="optionserr")
             continue
-        d = parse_dump(ev["dump"])
-
-        def opt(s):   # Some("x") -> x ; None -> None
-            m = re.match(r'^Some\("(.*)"\)$', s)
-            return json.loads('"' + m.group(1) + '"') if m else None
-        obs = {
-            "query_path": ev["query_path"], "schema_path": ev["schema_path"], "manifest_dir": ev["manifest_dir"],
-            "response_derives": opt(d["response_derives"]) or "", "response_derives_set": d["response_derives"] != "None",
-            "variables_derives": opt(d["variables_derives"]) or "", "variables_derives_set": d["variables_derives"] != "None",
-            "custom_scalars_module": (opt(d["custom_scalars_module"]) or "").replace(" ", ""),
-            "custom_scalars_module_set": d["custom_scalars_module"] != "None",
-            "deprecated": {"None": "warn", "Some(Warn)": "warn", "Some(Allow)": "allow", "Some(Deny)": "deny"}.get(d["deprecation_strategy"], d["deprecation_strategy"]),
-            "normalization": d["normalization"].lower(),
-            "fragments_other_variant": d["fragments_other_variant"] == "true",
-            "skip_serializing_none": d["skip_serializing_none"] == "true",
-            "extern_enums": json.loads(d["extern_enums"]),
-            "operation_name": opt(d["operation_name"]) or "", "struct_ident": opt(d["struct_ident"]) or "",
-            "mode": d["mode"], "serde_path": d["serde_path"].replace(" ", "").strip('"'),
-            "module_visibility": (opt(d["module_visibility"]) or "").replace(" ", ""),
-            "query_file": opt(d["query_file"]) or "",
-        }
-        lines.append({"n": n, "ident": "Op%d" % n, "entries": c["entries"], "trailing": c["trailing"], "obs": obs})
+        obs = obs_of(ev)
+        lines.append({"n": n, "ident": "Op%d" % n, "vis": "pub", "entries": c["entries"], "trailing": c["trailing"], "obs": obs})
         # the library called with the written options must give the same tokens
         o = c["options"]
-        lib = {"mode": "derive", "operation_name": "Op%d" % n, "struct_ident": "Op%d" % n,
-               "normalization": o["normalization"], "deprecation": o["deprecated"],
-               "fragments_other_variant": o["fragments_other_variant"], "skip_serializing_none": o["skip_serializing_none"],
-               "module_visibility": "pub", "serde_path": "graphql_client::_private::serde",
-               "query_file": os.path.join(crate, o["query_path"])}
-        if o["response_derives"]["found"]:
-            lib["response_derives"] = o["response_derives"]["value"]
-        if o["variables_derives"]["found"]:
-            lib["variables_derives"] = o["variables_derives"]["value"]
-        if o["custom_scalars_module"]["found"]:
-            lib["custom_scalars_module"] = o["custom_scalars_module"]["value"]
-        if o["extern_enums"]:
-            lib["extern_enums"] = o["extern_enums"]
+        lib = lib_options(o, "Op%d" % n, crate)
         genjobs.append({"id": n, "schema_path": os.path.join(crate, o["schema_path"]),
                         "query_path": os.path.join(crate, o["query_path"]), "options": lib, "want_tokens": True})
     # (a) trace validation by TLC
@@ -293,6 +305,88 @@ def part_ii(ck, cases, tier):
                              r["id"], r["status"], ev["status"]), case_key="tokens")
 
 
+def part_iii(ck, tier, selftest=False):
+    """(iii) the repository's own derive sites: the test crates of graphql_client compiled with the hooked derive.
+    Attributes are read from the SOURCE by tools/suite.py; Trace_C18 validates the recorded options against
+    DeriveAttr!RefOptions of what is written, and the derive's tokens are compared with the library called
+    with those reference options."""
+    import suite
+    lines_raw = suite.record()
+    cargo = suite.cargo_result()
+    all_sites = suite.sites()
+    if not lines_raw:
+        raise ToolError("the repository's test crates produced no derive events:\n%s" % (cargo.stderr[-2000:] if cargo else ""))
+    pairs, unmatched = suite.match_sites(lines_raw, all_sites)
+    for ln, cands in unmatched:
+        ck.count()
+        ck.violation("suite-unmatched-%s" % ln["ident"], {"part": "iii", "event": {k: v for k, v in ln.items() if k not in ("tokens", "events", "pre_events")},
+                                                           "candidates": cands},
+                     "C18(iii): the derive on `%s` resolved query_path %s / schema_path %s, which no `#[graphql(...)]` on a struct of that name in %s writes" % (
+                         ln["ident"], ln["query_path"], ln["schema_path"], suite.CRATE), case_key="suite-unmatched")
+    seen_sites = {id(s) for _, s in pairs}
+    wd = os.path.join(vlib.WORK, "suite")
+    lines = []
+    for n, (ln, site) in enumerate(pairs):
+        if ln["status"] == "options_err":
+            ck.count()
+            ck.violation("suite-optionserr-%s" % ln["ident"], {"part": "iii", "site": site, "event": ln["msg"]},
+                         "C18(iii): options could not be built for `%s` (%s): %s" % (ln["ident"], site["file"], ln["msg"]), case_key="suite-optionserr")
+            continue
+        lines.append({"n": n, "ident": ln["ident"], "vis": site["vis"], "entries": site["entries"], "trailing": site["trailing"],
+                      "obs": obs_of(ln), "file": os.path.relpath(site["file"], vlib.REPO)})
+    if selftest and lines:
+        lines[0]["obs"]["normalization"] = "rust" if lines[0]["obs"]["normalization"] == "none" else "none"
+    tpath = os.path.join(wd, "c18_trace.ndjson")
+    with open(tpath, "w") as f:
+        for l in lines:
+            f.write(json.dumps(l) + "\n")
+    res = vlib.run_tlc("Trace_C18", "Trace_C18.cfg", env={"TRACE": tpath, "CRATE_DIR": suite.CRATE}, dfs=True, timeout=600)
+    ck.add_tlc(res)
+    if not res["ok"]:
+        m = re.search(r'"UNMATCHED", (\d+)', res["out"])
+        k = int(m.group(1)) if m else None
+        bad = lines[k - 1] if k and k <= len(lines) else None
+        ck.violation("suite-trace-%s" % (bad["ident"] if bad else "unknown"), {"part": "iii", "event": bad, "tlc": res["out"][-1500:]},
+                     "C18(iii): derive of the repository's own test `%s` (%s): observed options %s do not match the attribute written there: %s" % (
+                         bad and bad["ident"], bad and bad["file"], bad and bad["obs"],
+                         bad and render_attr(bad["entries"], bad["trailing"], "plain", "normal")), case_key="suite-trace")
+    # reference options from the specification, then library vs derive tokens
+    ref = vlib.run_tlc("MC_SuiteRef", "MC_SuiteRef.cfg", env={"TRACE": tpath}, timeout=600)
+    ck.add_tlc(ref)
+    vlib.tlc_must_pass(ref)
+    refs = {r["n"]: r["options"] for r in ref["cases"].get("REF", [])}
+    genjobs = []
+    for l in lines:
+        o = refs[l["n"]]
+        genjobs.append({"id": l["n"], "schema_path": os.path.join(suite.CRATE, o["schema_path"]),
+                        "query_path": "%s/%s" % (suite.CRATE, o["query_path"]), "want_tokens": True,
+                        "options": lib_options(o, l["ident"], suite.CRATE, vis=l["vis"] or "inherited")})
+    results, _ = vlib.gqlv("gen", genjobs)
+    byn = {n: ln for n, (ln, site) in enumerate(pairs)}
+    nj = []
+    for r in results:
+        ev = byn[r["id"]]
+        if r["status"] == "ok" and ev["status"] == "ok":
+            nj.append({"id": "l%d" % r["id"], "tokens": r["tokens"]})
+            nj.append({"id": "d%d" % r["id"], "tokens": ev["tokens"]})
+    norm = {x["id"]: x.get("norm") for x in vlib.gqlv("normtokens", nj)[0]}
+    for r in results:
+        ev = byn[r["id"]]
+        ck.count()
+        same = r["status"] == ev["status"] and (r["status"] != "ok" or (
+            norm.get("l%d" % r["id"]) is not None and norm.get("l%d" % r["id"]) == norm.get("d%d" % r["id"])))
+        if not same:
+            l = next(x for x in lines if x["n"] == r["id"])
+            ck.violation("suite-tokens-%s-%d" % (l["ident"], r["id"]), {"part": "iii", "site": l, "library": {k: v for k, v in r.items() if k != "tokens"},
+                                                                      "derive_status": ev["status"], "derive_msg": ev.get("msg")},
+                         "C18(iii): the derive on `%s` (%s) did not produce what the library produces for the written options (library %s, derive %s)" % (
+                             l["ident"], l["file"], r["status"], ev["status"]), case_key="suite-tokens")
+    ck.notes["repository_derive_sites"] = {"in_source": len(all_sites), "recorded": len(lines_raw), "validated": len(lines),
+                                           "source_sites_never_recorded": len([s for s in all_sites if id(s) not in seen_sites])}
+    if lines:
+        ck.sample({"repository_test": lines[0]["file"], "struct": lines[0]["ident"], "entries": lines[0]["entries"], "observed": lines[0]["obs"]})
+
+
 def main(tier, replay=None, selftest=False):
     ck = Check(PROP, tier)
     vlib.build_harness()
@@ -314,6 +408,7 @@ def main(tier, replay=None, selftest=False):
         cases[7]["options"]["normalization"] = "rust" if cases[7]["options"]["normalization"] == "none" else "none"
     part_i(ck, cases, tier)
     part_ii(ck, cases, tier)
+    part_iii(ck, tier, selftest)
     ck.assumptions += ["one representative value per key (DeriveAttr!ValueOf); values are lower-case where the documentation shows lower-case",
                        "literal styles: plain, unicode-escaped, raw, raw with hashes; the derive sample is every k-th arrangement"]
     return ck.finish(exhaustive=True,
